@@ -196,6 +196,7 @@ def drive(recipe):
     # the group (B-centred cells are LATT 6 whatever the table calls them), with a negative sign when the inversion-related
     # operations are listed explicitly.  The library reduces the list for that LATT, and so does the harness (ref_reduce);
     # whether a (list, LATT) pair IS a description of the group is decided by TLC (Describes).
+    import numpy as _np
     t["alts"] = []
     for latt in (1, -1, 2, -2, 3, -3, 4, -4, 5, -5, 6, -6, 7, -7):
         a = {"latt": latt, "lib": [], "lib_exc": "", "ref": ref_reduce(t["ops"], latt),
@@ -204,7 +205,9 @@ def drive(recipe):
         try:
             red = reduced_symmetry_list(list(sg.symmetry_operations), latt)
             a["lib"] = [int(s.integer_code) for s in red]
-            a["lk_lib"] = _lookup(lambda: SpaceGroup.from_symmetry_operations(list(red), expand_latt=latt))
+            # LATT values come as plain ints or out of integer arrays (a column of a table of structures)
+            latt_arg = (latt, _np.int64(latt), _np.int32(latt), _np.int8(latt))[(abs(latt) + row["number"]) % 4]
+            a["lk_lib"] = _lookup(lambda: SpaceGroup.from_symmetry_operations(list(red), expand_latt=latt_arg))
         except Exception as e:
             a["lib_exc"] = type(e).__name__
         by_code = {int(s.integer_code): s for s in sg.symmetry_operations}
